@@ -7,10 +7,14 @@ SPEC = {
     "extra": [e2e.startup_cycles],
     "rule": "exhaustive: every key of the built-in table, every IANA id 0..500 and 100 random keys; for each the real "
             "ipfix.InfoModel entry before and after the real LoadExtElements on the shipped scripts/ipfix.elements; "
-            "non-trivial = the key exists; distinct = distinct key. e2e-startup: 32 (quick) / 320 (thorough) start-ups of the race-"
-            "detector build of the binary with the shipped ipfix.elements installed (three in four) or absent while NetFlow v9 and "
-            "IPFIX exporters are already sending: it must come up, keep decoding and log no race / crash report (judged before the "
-            "stop; the stop path is C15's)",
+            "non-trivial = the key exists; distinct = distinct key. e2e-startup: 32 (quick) / 320 (thorough) start-ups (+ the witnesses "
+            "of corpus/C20) of the race-detector build of the binary with an ipfix.elements file installed (three in four) or absent "
+            "while NetFlow v9 and IPFIX exporters are already sending: it must come up, keep decoding and log no race / crash report "
+            "(judged before the stop; the stop path is C15's). The installed file is the cycle's own: the shipped one + one extension "
+            "element (an id the built-in table lacks, type unsigned8/16/32/64 or ipv4Address) which the exporters' templates use, and "
+            "the collector runs with both listeners on, -ipfix-enabled=false, -netflow9-enabled=false or both off: whichever of the two "
+            "decoders is on must publish the element with the file's type; '... element key (id) not exist' from a decoder that is on "
+            "is fail:not-loaded (F34); no published data set of a probed protocol within 0.4 s = no verdict",
     "assumptions": ["factgen's go/ast reading of the InfoModel literal / FieldTypes map / iota block and its YAML-subset parser "
                     "(cross-checked: the driver prints the generated table and the harness the real map, entry by entry)",
                     "gopkg.in/yaml.v2 as used by LoadExtElements (library)"],
@@ -23,9 +27,13 @@ META = {
             "snapshot, decoder table = builtin resolved through FieldTypes, model minLen/interpret = source switch tables for "
             "every FieldType x field length 0..20 incl. the over-long branch (interpretWide; the statements of wideUint / wideInt "
             "are pinned), the structured-data elements 291..293 resolve to Unknown (reported as their octets; they are "
-            "variable-length elements and decodable since fix 6666d44, C03 F23). "
+            "variable-length elements and decodable since fix 6666d44, C03 F23). main loads the file before it starts the listeners "
+            "(F18) under the guard 'IPFIX or NetFlow v9 enabled' (F34; regenerated: .loadElementsIf), and every package that indexes "
+            "ipfix.InfoModel (regenerated: modelReaders) is the decoder package of a listener (decoderSwitches) whose switch is a "
+            "disjunct of that guard (gen_load_guard_covers_readers; the guard before fix 50ba95f, a third reader, a reader that is no "
+            "listener's decoder: false). "
             "Correspondence: real InfoModel before/after the real LoadExtElements, every key.",
-    "ref": "DESIGN.md §6 C20",
+    "ref": "DESIGN.md §6 C20, §8 F18 F34",
     "note": "Trusted: Lean kernel; factgen translator (validated entry-by-entry against the real map by the correspondence); yaml library.",
     "technique": "Lean 4 decide +kernel over tables regenerated from the Go AST + exhaustive comparison with the real LoadExtElements",
 }
